@@ -138,4 +138,39 @@ example :
     (modeRules exSpec "S").map (GRule.pairs exSpec) = [some [(2, 0), (3, 3)], some [(3, 4)]] := by
   decide +kernel
 
+/-- What the model of the generator emits for it. -/
+def exSpecModes : Array Mode := #[
+  #[4, 16, 21, 28, 11, 0, 3, 34, 34, 2, 97, 97, 1, 98, 98, 3, 4, 0, 0, 3, 2, 6, 0, 0, 1, 1, 3, 5,
+    4, 0, 0, 3, 5],
+  #[3, 12, 19, 8, 0, 2, 34, 34, 1, 120, 120, 2, 6, 0, 0, 2, 0, 3, 3, 4, 0, 0, 3, 4]]
+
+theorem exSpec_genModes : genModes exSpec = some exSpecModes := by decide +kernel
+
+/-- The hypotheses of `generator_accept_numbers` on an instance: state 2 of `$default` (after `"`)
+stores push of mode 1 and accept 5; `(3, 5)` is an accept pair of that row. Its conclusion then says
+`5` is the constant of `B`, the token the fragment emits. -/
+example : exSpecModes[0]? = some exSpecModes[0] ∧ 2 < Rt.nStates exSpecModes[0] ∧
+    Rt.decodeRow exSpecModes[0] ((2 : Nat) : Int) = some ⟨0, [], [(1, 1), (3, 5)]⟩ ∧
+    ((3 : Int), (5 : Int)) ∈ [((1 : Int), (1 : Int)), (3, 5)] := by decide +kernel
+
+/-- `generator_accept_numbers` used on that instance: the name is determined by the number. -/
+example : ∃ name, constOf (terminals (toTermSpec exSpec)) name = some 5 ∧
+    (∃ r ∈ modeRules exSpec "$default", r.name = some name ∨
+      (r.name = none ∧ LAct.emit name ∈ r.acts)) := by
+  obtain ⟨name, k, hp, _, _, hc, _, _, _, _, mname, r, hmn, hr, _, hrn⟩ :=
+    generator_accept_numbers exSpec exSpecModes exSpec_genModes (by decide +kernel) 0
+      exSpecModes[0] (by decide) 2 (by decide +kernel) ⟨0, [], [(1, 1), (3, 5)]⟩
+      (by decide +kernel) (3, 5) (by decide) rfl
+  have hk : k = 5 := by
+    have := congrArg Prod.snd hp
+    simp only at this
+    omega
+  subst hk
+  have hm : mname = "$default" := by
+    have h0 : (modeNames exSpec)[0]? = some "$default" := by decide +kernel
+    rw [h0] at hmn
+    exact (Option.some.inj hmn).symm
+  subst hm
+  exact ⟨name, hc, r, hr, hrn⟩
+
 end Lox.Props.C19
